@@ -266,10 +266,13 @@ func runC12(r *Run) {
 		}
 		nH++
 		isVB := isCallMatching(func(ci CallInfo) bool {
-			return ci.Name == "ValidateBasic" && isParam(callArgs(ci.Instr)[0], "msg") && errHandled(ci.Instr)
+			return ci.Name == "ValidateBasic" && backSlice(callArgs(ci.Instr)[0]).HasParam("msg") && errHandled(ci.Instr)
 		})
 		isKeeper := isCallMatching(func(ci CallInfo) bool {
-			return ci.Static != nil && pathHasSuffix(ci.PkgPath, ucdaoK) && (ci.Name == "Fund" || ci.Name == "TransferOwnership")
+			if ci.Name != "Fund" && ci.Name != "TransferOwnership" {
+				return false
+			}
+			return (ci.Static != nil && pathHasSuffix(ci.PkgPath, ucdaoK)) || (ci.Invoke && ci.Recv == "Keeper" && pathHasSuffix(ci.PkgPath, ucdaoK))
 		})
 		w := Precedes(fn, isVB, isKeeper, nil)
 		r.Check(w == nil, "R4", fnID(fn)+"#validate-first", P.Pos(fnPos(fn)), "msg.ValidateBasic() checked before the keeper call", "the keeper is called on a path without an error-checked msg.ValidateBasic()", P.witness(w)...)
